@@ -409,6 +409,8 @@ fn verif_oracle_gc_histories() {
     let mut fails: Vec<(String, String)> = Vec::new();
     // exhaustive: every history of <= depth operations over <= 2 guards and <= 3 objects, collection only when asked
     explore(&mut Vec::new(), depth, 0, 2, 3, &mut cases, &mut fails);
+    // ... and every history of <= depth-1 operations over <= 3 guards (guard storage is pooled and reused)
+    explore(&mut Vec::new(), depth.saturating_sub(1), 0, 3, 3, &mut cases, &mut fails);
     // the same, one operation shorter, with a collection on EVERY allocation (threshold 1)
     explore(&mut Vec::new(), depth.saturating_sub(1), 1, 2, 3, &mut cases, &mut fails);
     // long random histories crossing the chunk (256) and guard-pool (16) boundaries
